@@ -343,3 +343,6 @@ case("C02", "shuffle-neg-end-short", "VIOLATION", [(E, "\tif end < 0:\n\t\tend =
 case("C02", "dinuc-drops-last-example", "VIOLATION", [(E, "\tX_shufs = []\n\tfor i in range(X.shape[0]):\n\t\tinsert_ = _dinucleotide_shuffle", "\tX_shufs = []\n\tfor i in range(X.shape[0] - 1):\n\t\tinsert_ = _dinucleotide_shuffle")], "R-AXES", "ersatz.dinucleotide_shuffle")
 case("C02", "walk-stops-early", "VIOLATION", [(E, "\t\tfor j in range(1, len(idxs)):", "\t\tfor j in range(1, len(idxs) - 1):")], "WALK")
 case("C10", "del-mask-wrong-axes", "VIOLATION", [(V, "mask = torch.zeros_like(X[:, 0]).type(torch.int32)", "mask = torch.zeros_like(X[0, :]).type(torch.int32)")], "DEL")
+case("C18", "spacing-skips-abutting", "VIOLATION", [(AN, "\t\t\t\t\td = start1 - end0\n\t\t\t\t\tif d < 0 or d >= max_distance:", "\t\t\t\t\td = start1 - end0\n\t\t\t\t\tif d <= 0 or d >= max_distance:")], "R-ACCEPT")
+case("C18", "count-rejects-exact-shape", "VIOLATION", [(AN, "if n_examples > shape[0] or n_annotations > shape[1]:", "if n_examples >= shape[0] or n_annotations > shape[1]:")], "R-ACCEPT")
+case("C15", "ohe-skips-last-char", "VIOLATION", [(UT, "\tfor i in range(len(seq)):\n\t\tidx = mapping[seq[i]]", "\tfor i in range(len(seq) - 1):\n\t\tidx = mapping[seq[i]]")], "R-TABLE")
